@@ -239,6 +239,21 @@ class World:
         self.groups.append(g)
         return g
 
+    def _find_spinner(self):
+        """At the step cap: is the task that was running last inside code of the tree under test?
+        -> (innermost function of the tree under test, task name, process name, file:line) or None"""
+        t = self.sched.current
+        if t is None or t.thread is None:
+            return None
+        fr = sys._current_frames().get(t.thread.ident)
+        src = self.mods["src"]
+        while fr is not None:
+            fn = fr.f_code.co_filename
+            if fn.startswith(src) or fn == "<string>":
+                return (fr.f_code.co_name, t.name, t.proc.name if t.proc else None, f"{os.path.basename(fn)}:{fr.f_lineno}")
+            fr = fr.f_back
+        return None
+
     # ---- run ------------------------------------------------------------
     def run(self, wall_timeout=120.0):
         multi = self.mods["multi"]
@@ -257,10 +272,13 @@ class World:
             mon = trace.setup(self.mods)
             mon.activate(self.sched)
         self.blocked_snapshot = []
+        self.spinning = None
         try:
             reason = self.sched.run(wall_timeout)
             # who is still inside an API call now that nothing can happen any more?  (must be looked at
             # before the task threads are unwound: unwinding clears the per-task op markers)
+            if reason == "step-cap":
+                self.spinning = self._find_spinner()
             for t in self.sched.tasks:
                 if t.op is not None and t.state != "done" and (t.proc is None or t.proc.alive):
                     self.blocked_snapshot.append((t.op, t.blocked_label, t.proc.name if t.proc else None))
